@@ -242,6 +242,17 @@ func Seeds() []func() *Program {
 			a.Add(obj("Foo", fld("home", RefTo(addr, "")), fld("previous", RefTo(st, "")), fld("far", RefTo(target, "other"))))
 			return &Program{Files: []*File{a, b, o}}
 		},
+		func() *Program { // the same simple type name in the local and in an imported package; only the imported one is referenced, by the last declaration
+			a := file("t/v1", "a")
+			o := file("other/v1", "z")
+			far := obj("Thing", fld("y", T(TString)))
+			o.Add(far)
+			a.Imports = []Import{{Pkg: "other.v1"}}
+			a.Add(obj("Thing", fld("x", T(TString))))
+			a.Add(obj("Early", fld("name", T(TString))))
+			a.Add(obj("Late", fld("far", RefTo(far, "other")), fld("fars", ArrayOf(RefTo(far, "other")))))
+			return &Program{Files: []*File{a, o}}
+		},
 		one(func(f *File) {
 			f.Add(&Service{Name: "Foo", BasePath: "/t/v1", Methods: []*Method{
 				{Name: "GetThing", Verb: "GET", Path: "/things/:thingId", Request: []*Field{fld("thingId", T(TString))}, HasResponse: true, Response: []*Field{fld("name", T(TString))}},
